@@ -25,6 +25,25 @@ fn main() {
                         Err(e) => format!("err {}", hex(format!("{}", e).as_bytes())),
                     }
                 }
+                // geno <tosource 0|1> <int type|-> <preamble 0|1> <idl>: generate_with_options, as a build script with options calls it
+                "geno" => {
+                    let src = unhex(a[3]);
+                    let int_type: Option<&'static str> = match a[1] {
+                        "-" => None,
+                        t => Some(leak(t.to_string())),
+                    };
+                    let preamble: Option<proc_macro2::TokenStream> = if a[2] == "1" {
+                        Some("use std::collections::BTreeMap as PreambleMap; pub type PreambleMarker = PreambleMap<u8, u8>;".parse().unwrap())
+                    } else {
+                        None
+                    };
+                    let opts = varlink_generator::GeneratorOptions { int_type, preamble, ..Default::default() };
+                    let mut out: Vec<u8> = Vec::new();
+                    match varlink_generator::generate_with_options(&mut &src[..], &mut out, &opts, a[0] == "1") {
+                        Ok(()) => format!("ok {}", hex(&out)),
+                        Err(e) => format!("err {}", hex(format!("{}", e).as_bytes())),
+                    }
+                }
                 // the build-script front end: cargo_build() writes $OUT_DIR/<stem>.rs; run it for a first definition, then for a
                 // second one under the same file name (what a rebuild after an edit does) and compare the file with generate()
                 "buildrs" => {
@@ -38,19 +57,28 @@ fn main() {
                         last = unhex(h);
                         std::fs::write(&input, &last).unwrap();
                         varlink_generator::cargo_build(&input);
+                        // the second helper writes <dir>/x_y.rs next to the definition (rustfmt off)
+                        varlink_generator::cargo_build_tosource(&input, false);
                     }
                     let got = std::fs::read(dir.join("out").join("x.y.rs")).unwrap_or_default();
+                    let got2 = std::fs::read(dir.join("x_y.rs")).unwrap_or_default();
                     let _ = std::fs::remove_dir_all(&dir);
                     let mut want: Vec<u8> = Vec::new();
-                    match varlink_generator::generate(&mut &last[..], &mut want, false) {
-                        Ok(()) => {
-                            if got == want {
-                                "same".to_string()
+                    let mut want2: Vec<u8> = Vec::new();
+                    match (
+                        varlink_generator::generate(&mut &last[..], &mut want, false),
+                        varlink_generator::generate(&mut &last[..], &mut want2, true),
+                    ) {
+                        (Ok(()), Ok(())) => {
+                            if got != want {
+                                format!("differs helper=cargo_build got={} want={}", hex(&got), hex(&want))
+                            } else if got2 != want2 {
+                                format!("differs helper=cargo_build_tosource got={} want={}", hex(&got2), hex(&want2))
                             } else {
-                                format!("differs got={} want={}", hex(&got), hex(&want))
+                                "same".to_string()
                             }
                         }
-                        Err(e) => format!("err {}", hex(format!("{}", e).as_bytes())),
+                        (Err(e), _) | (_, Err(e)) => format!("err {}", hex(format!("{}", e).as_bytes())),
                     }
                 }
                 _ => "UNKNOWN-OP".to_string(),
